@@ -200,7 +200,71 @@ def gen_items(rng, tier):
     for p in ([("while", c, [])], [("dowhile", [], c)], [("for", [("set", "$i", 0)], c, [("add", "$i", 1)], [])]):
         items.append(dict(prog=p + [("say", "after")], cert=0, stream="empty-bodies"))
     items += rich_loop_items(rng, quick)
+    # packs of several functions: a loop body calls a function that runs loops of its own (shared while_loop/for_loop numbering)
+    for lk1, lk2 in itertools.product(LOOP_KINDS, LOOP_KINDS):
+        for order in (["f", "g"], ["g", "f"]):
+            nm = G.Names()
+            g = G.flatten_seq([G.random_loop(rng, nm, 1, ["$a", "$b"], kind=lk2, cond_kind="and_or"), nm.say("gend")])
+            outer = G.random_loop(rng, nm, 1, ["$a", "$b"], kind=lk1, cond_kind="or")
+            f = G.flatten_seq([outer, nm.say("end")])
+            G.insert_calls(rng, f, "g", 1)
+            items.append(dict(prog=f, more={"g": g}, order=order, cert=0, stream="multi-function-loops"))
+    n = 0
+    while n < (30 if quick else 300):
+        it = G.random_pack(rng, depth=2, loops=True, helpers=rng.choice([1, 2]))
+        if not any(k.startswith(("while_", "dowhile_", "for_")) for b in [it["prog"]] + list(it["more"].values()) for k in G.shape_tags(b)):
+            continue
+        n += 1
+        items.append(dict(it, cert=n % 2, stream="multi-function-random"))
     return items
+
+
+# ---- a loop body written without braces --------------------------------------------------------------------
+# JavaScript allows `while (c) stmt;`.  JMC's grammar wants a block; it has to say so (diagnostic) or lower
+# the statement as the body — silently dropping it changes the iteration behaviour (the emitted loop then
+# recurses without ever running the statement).  Not expressible in Model.Loop (a body is a block there), so
+# this is a direct probe: accepted => the emitted code must behave as the source tree says.
+
+def loop_body_form_probes():
+    L, a = "$k", "$a"          # (a name ending in a digit changes how the brace-less form is tokenised)
+    inc = ("add", L, 1)
+    w = [("atom", (L, "<", 2))]
+    probes = [
+        ("while-assignment", [("set", L, 0), ("while", w, [inc]), ("say", "after")],
+         f'function f() {{ {L} = 0; while ({L} < 2) {L} += 1; say "after"; }}'),
+        ("while-if-block", [("set", L, 0), ("while", w, [("if", [(G.atomic_cond(a), [("say", "t")])], None), inc]), ("say", "after")],
+         None),
+        ("while-nested-if", [("set", L, 0), ("while", w, [("if", [([("atom", (L, "<", 5))], [inc, ("say", "t")])], None)]), ("say", "after")],
+         f'function f() {{ {L} = 0; while ({L} < 2) if ({L} < 5) {{ {L} += 1; say "t"; }} say "after"; }}'),
+        ("while-or-assignment", [("set", L, 0), ("while", [("f", G.OR(G.A(L, "<", 2), G.A(a, "==", 1)))], [inc, ("set", a, 0)])],
+         f'function f() {{ {L} = 0; while ({L} < 2 || {a} == 1) {{ {L} += 1; {a} = 0; }} }}'),
+        ("dowhile-assignment", [("set", L, 0), ("dowhile", [inc], w), ("say", "after")],
+         f'function f() {{ {L} = 0; do {L} += 1; while ({L} < 2); say "after"; }}'),
+        ("for-assignment", [("for", [("set", L, 0)], w, [inc], [("add", a, 1)]), ("say", "after")],
+         f'function f() {{ for ({L} = 0; {L} < 2; {L} += 1) {a} += 1; say "after"; }}'),
+    ]
+    return [(t, p, src or G.prog_src(p)) for t, p, src in probes]
+
+
+def run_loop_body_form_probes(ck):
+    from lib import compile_batch
+    cert = G.CERTS[0]
+    probes = loop_body_form_probes()
+    res = compile_batch([dict(src=src, cert=G.cert_text(cert)) for _t, _p, src in probes])
+    out = {}
+    for (tag, prog, src), r in zip(probes, res):
+        if not r["ok"]:
+            out[tag] = "refused: " + r["exc"]
+            continue
+        states = G.states_for(prog, cert, cap=16, rng=ck.rng)
+        f, *_ = G.semantic_failure(prog, G.real_functions(r), cert, states)
+        out[tag] = "accepted, behaves as the source" if f is None else "accepted, WRONG: " + f["kind"]
+        if f:
+            ck.violation(dict(kind="semantic-failure", what="a loop whose body is a single statement (no braces) is accepted but does not "
+                              "iterate as its source says", source=src, jmc_txt=cert, program=prog, failure=f, original_source=src,
+                              stream="loop-body-form-" + tag, n_failing_cases=1, text_differs_from_model=None,
+                              note="accepted programs must behave as written; a diagnostic would have been fine"))
+    return out
 
 
 def main(tier: str) -> int:
@@ -210,8 +274,10 @@ def main(tier: str) -> int:
         "(_flow_control.py:134-212, 517-609), add_custom_private_function / get_count / call_func (datapack.py) and of the "
         "statement-by-statement lowering of a function body; tied to the tree by exact text equality of the caller and of every "
         "generated private function on the generated programs",
-        "conditions enter the model as (precommand lines, execute guards), predicted by the harness for the simple shapes it generates "
-        "(property C03 covers the lowering of formulas); for-initialiser and step are single assignment statements (property C01)",
+        "conditions enter the model as (precommand lines, execute guards), computed in Coq by property C03's model (Run.C04.lowc = "
+        "Model.Cond.parse_condition on the formula the source text was printed from; bracket token for while/do-while, bare token list for "
+        "for), not predicted by the harness; for-initialiser and step are single assignment statements (property C01)",
+        "a loop body written without braces is outside Model.Loop: probed directly (accepted => the emitted code must behave as the source)",
         "outside the model: async loops, switch (C06); Minecraft's maxCommandChainLength and recursion limits are not modelled "
         "(theorems say: for every terminating source loop there is fuel ...)",
         "mcvm.py + the source-level interpreter in c04_gen.py: untrusted, used only to search for failing inputs",
@@ -219,14 +285,19 @@ def main(tier: str) -> int:
     ck.proof(extra_targets=["Run/C05.vo"])
     items = gen_items(ck.rng, tier)
     st = G.check_programs(ck, items, tier, "a loop does not iterate as its source says")
+    body_forms = run_loop_body_form_probes(ck)
     distinct = len({G.jmc_src(it) + str(it["cert"]) for it in items})
     ck.cov.update(dict(
+        loop_body_form_probes=body_forms,
         evaluations=len(items), distinct_nontrivial=distinct, programs=len(items),
         rule="a case = one function body compiled by the real compiler (one pack each); streams: loop kind {while, do-while, for} x condition "
              "kind {atomic, atom && ||-group, ||-group && atom, top-level || group, || with a variable the body clears} x body kind {counter only, "
              "2 cmds, chain with else, chain ending in an ||-else-if without else, nested for, body flipping the tested variables, single if with "
              "||} x bound {0, 1, 3}; loops in every branch position of a chain inside a while (depth 3); random nests to depth 3 with >= 1 loop; "
-             "directly nested loops whose conditions share __logic__0; empty bodies.  Every case contains a loop, so distinct_nontrivial = distinct sources",
+             "directly nested loops whose conditions share __logic__0; empty bodies.  Round 2: 14 rich condition shapes x 5 ways of combining them with the "
+             "counter test (guard && F, F && guard, guard distributed into the alternatives, guard || F with a body that falsifies F, !(!guard || !F)) x "
+             "loop kind x bounds x bodies (say / clears a tested variable / chain over the same variables); random formulas in nested loops; packs of "
+             "several functions whose loops call each other.  Every case contains a loop, so distinct_nontrivial = distinct sources",
         correspondence="text of the user function and of every private function == Model (compile_body), compared in Coq",
         disagreements_checked=len(st["bad"]), semantic_runs=st["n_runs"], semantic_runs_skipped_divergent=st["n_skipped"],
         semantic_failures=len(st["sem_fail"]), compile_errors_expected_by_model=st["n_errors"],
